@@ -219,6 +219,22 @@ func (q *PathQuery) Run() {
 	if q.From != nil {
 		start.b = q.From.Block()
 		start.i = indexInBlock(q.From) + 1
+		// conditions that hold whenever From executes: dominating single-predecessor branch edges
+		for x := start.b; x != nil; x = x.Idom() {
+			if len(x.Preds) != 1 {
+				continue
+			}
+			pp := x.Preds[0]
+			if iff, ok := pp.Instrs[len(pp.Instrs)-1].(*ssa.If); ok && pp.Succs[0] != pp.Succs[1] {
+				key, pol := q.K.condKey(iff.Cond)
+				if pp.Succs[0] != x {
+					pol = !pol
+				}
+				if _, set := start.assign[key]; !set {
+					start.assign[key] = pol
+				}
+			}
+		}
 	}
 	start.blocks = []int{start.b.Index}
 	visited := map[string]bool{}
